@@ -146,7 +146,7 @@ impl Check for C14 {
     }
     fn strategy(&self, tier: Tier) -> BoxedStrategy<Case> {
         let mut lim = Limits::small();
-        lim.max_input_len = tier.pick(400, 3000);
+        lim.max_input_len = tier.pick(400, 1200);
         lim.big_aggs = false;
         let vd = (
             (2u8..=4, any::<u8>(), any::<u64>(), any::<u16>(), any::<u8>(), any::<u16>(), any::<bool>(), any::<u8>()),
@@ -162,12 +162,12 @@ impl Check for C14 {
                 Case::Vdaf { cfg, ctx, key_seed, nonce_seed, rand_seed, meas, threads, reps, contended }
             });
         let gd = (any::<bool>(), prop_oneof![Just(1usize), 1usize..=40], prop_oneof![Just(1usize), 1usize..=70], any::<u64>(), 1usize..=32).prop_map(|(f128, calls, chunks, seed, threads)| Case::Gadget { f128, calls, chunks, seed, threads });
-        let maxlen = tier.pick(300usize, 3000);
+        let maxlen = tier.pick(300usize, 1200);
         let ct = (any::<u8>(), 2u8..=4, 1usize..=maxlen, prop_oneof![Just(1usize), 1usize..=40, 41usize..=400], any::<u64>(), any::<u64>(), 1usize..=32).prop_map(|(kind, n_agg, len, chunk, p, seed, threads)| Case::Ctor { kind, n_agg, len, chunk, p, seed, threads });
         prop_oneof![3 => vd, 2 => gd, 1 => ct].boxed()
     }
     fn num_cases(&self, tier: Tier) -> u64 {
-        tier.pick(1500, 40_000)
+        tier.pick(1500, 15_000)
     }
     fn run(&self, case: &Case) -> Outcome {
         let mut obs = Obs::new();
